@@ -2,6 +2,7 @@ import Ruint.Lemmas.Bytes
 import Ruint.Lemmas.RsTactic
 import Ruint.Lemmas.GenBytes
 import Ruint.Gen.WordsUtils
+import Ruint.Lemmas.GenUtils
 
 /-!
 # C08 — byte encodings are positional, round-trip, and range-check without panicking
@@ -306,5 +307,28 @@ theorem gen_utils_shapes (l : List ℕ) (v a b : ℕ) :
     ∧ Ruint.Gen.utils_last_idx l v = (match Rs.rposition (fun x => x != v) l with | some i => Rs.wadd 64 i 1 | none => 0)
     ∧ Ruint.Gen.utils_rem_up a b = (if decide (a % b > 0) then a % b else b) :=
   ⟨rfl, rfl, rfl⟩
+
+/-- WHAT the generated `trim_end_slice` computes, for every slice and every value: the input is the result followed by copies
+    of `value`, and the result does not end in `value` — i.e. exactly the trailing run of `value` is removed (these two facts
+    determine the result uniquely). -/
+theorem gen_trim_end_slice_spec (l : List ℕ) (v : ℕ) (h : l.length < 2 ^ 64) :
+    l = Ruint.Gen.utils_trim_end_slice l v
+          ++ List.replicate (l.length - (Ruint.Gen.utils_trim_end_slice l v).length) v
+    ∧ (Ruint.Gen.utils_trim_end_slice l v).getLast? ≠ some v := by
+  unfold Ruint.Gen.utils_trim_end_slice
+  rw [Ruint.TrimEnd.gen_last_idx_eq l v h]
+  refine ⟨?_, Ruint.TrimEnd.take_last v l⟩
+  have hl : (l.take (Ruint.TrimEnd.idx v l)).length = Ruint.TrimEnd.idx v l := by
+    rw [List.length_take]; exact Nat.min_eq_left (Ruint.TrimEnd.idx_le v l)
+  rw [hl]
+  exact Ruint.TrimEnd.take_append v l
+
+/-- `trim_end_vec` (`vec.truncate(last_idx(vec, value))` through `&mut Vec<T>`), as generated, leaves in the vector what
+    `trim_end_slice` returns — so the two trimmed encoders built on them cannot drift apart. -/
+theorem gen_trim_end_vec_eq_slice (l : List ℕ) (v : ℕ) :
+    Ruint.Gen.utils_trim_end_vec l v = Ruint.Gen.utils_trim_end_slice l v := rfl
+
+example : Ruint.Gen.utils_trim_end_vec [0, 1, 0, 1, 0, 0] 0 = [0, 1, 0, 1] ∧ Ruint.Gen.utils_trim_end_vec [0, 0] 0 = [] := by
+  decide
 
 end Ruint.C08
